@@ -1,1 +1,88 @@
-(* C08 theorems: filled in as they close *)
+(* C08 — property theorems only: each closed by [exact], each followed by Print Assumptions.
+
+   Common quantification: every refinement oracle [kink] (the decision of the float kink fit as a function of the
+   8-sample window) with values in {-1,0,+1}; every configuration satisfying the length rule [cfg_ok]
+   (npre >= 1, nsamp > npre, refinement on => npre >= 4 and nsamp - npre >= 4: weaker than what the code accepts);
+   NO condition on threshold (either sign, zero), nmonotone or mode; every stream st0 retained by the channel when
+   edge-multi is (re)configured (search state = EMTState.reset, frame numbers non-negative); every sequence of
+   gap-free blocks of any sizes (empty blocks included).  [run] is the mirror of
+   AppendSegment; edgeMultiTriggerComputeAppend; TrimKeepingN(NToKeepOnTrim) per block. *)
+From Dastard Require Import Common.ZX Pipeline.Stream C08.Model C08.Spec C08.Proofs.
+
+(* the hypotheses are satisfiable: the witness of the pre-fix defect meets all of them *)
+Example hypotheses_met : cfg_ok w_cfg /\ kink_ok w_kink /\ 0 <= st_first w_st0 /\ contiguous (st_endframe w_st0) [w_seg].
+Proof. exact w_hyps. Qed.
+
+(* No stream content, edge position or block pattern crashes processing: the run completes (no Go panic — every
+   raw[i] and every slice of triggerAtSpecificSamples is in range — and no fuel exhaustion of the model), and every
+   record is the exact in-range excerpt of the samples delivered. *)
+Theorem emt_never_out_of_range :
+  forall (kink : list Z -> Z) (c : cfg) (st0 : stream) (segs : list segment),
+    cfg_ok c -> kink_ok kink -> 0 <= st_first st0 -> contiguous (st_endframe st0) segs ->
+    exists r, run kink c st0 emt_reset segs = EOk r /\
+              Forall (fun rec => rec_in_range (st_data st0 ++ seg_concat segs) (st_first st0) rec = true)
+                     (concat (snd r)).
+Proof. exact emt_never_out_of_range_thm. Qed.
+Print Assumptions emt_never_out_of_range.
+
+(* Block independence, full strength: any two ways of cutting the same samples into one or more gap-free blocks
+   publish the same sequence of (trigger frame, pre-trigger length, samples), and both runs complete. *)
+Theorem emt_block_independent :
+  forall (kink : list Z -> Z) (c : cfg) (st0 : stream) (segsA segsB : list segment),
+    cfg_ok c -> kink_ok kink -> 0 <= st_first st0 ->
+    segsA <> [] -> segsB <> [] ->
+    contiguous (st_endframe st0) segsA -> contiguous (st_endframe st0) segsB ->
+    seg_concat segsA = seg_concat segsB ->
+    exists ra rb,
+      run kink c st0 emt_reset segsA = EOk ra /\ run kink c st0 emt_reset segsB = EOk rb /\
+      map proj (concat (snd ra)) = map proj (concat (snd rb)).
+Proof. exact emt_block_independent_thm. Qed.
+Print Assumptions emt_block_independent.
+
+(* Records come in strictly increasing frame order over the whole run (all pairs, not only neighbours): in
+   particular no frame is recorded twice — an accepted edge yields at most one record. *)
+Theorem emt_increasing :
+  forall (kink : list Z -> Z) (c : cfg) (st0 : stream) (segs : list segment) r,
+    cfg_ok c -> kink_ok kink -> 0 <= st_first st0 -> contiguous (st_endframe st0) segs ->
+    run kink c st0 emt_reset segs = EOk r ->
+    ForallOrdPairs (fun a b => r_frame a < r_frame b) (concat (snd r)).
+Proof. exact emt_increasing_thm. Qed.
+Print Assumptions emt_increasing.
+
+(* The two fixed-length modes (mode <> 1) only publish records with npre pre-trigger samples and nsamp samples. *)
+Theorem emt_fixed_full_length :
+  forall (kink : list Z -> Z) (c : cfg) (st0 : stream) (segs : list segment) r,
+    cfg_ok c -> kink_ok kink -> 0 <= st_first st0 -> contiguous (st_endframe st0) segs ->
+    run kink c st0 emt_reset segs = EOk r -> c_mode c <> 1 ->
+    Forall (fun rec => r_pre rec = c_npre c /\ zlen (r_data rec) = c_nsamp c) (concat (snd r)).
+Proof. exact emt_fixed_full_length_thm. Qed.
+Print Assumptions emt_fixed_full_length.
+
+(* Variable-length records (mode = 1) are pairwise disjoint, and none extends past the edge of a later record. *)
+Theorem emt_variable_no_overlap :
+  forall (kink : list Z -> Z) (c : cfg) (st0 : stream) (segs : list segment) r,
+    cfg_ok c -> kink_ok kink -> 0 <= st_first st0 -> contiguous (st_endframe st0) segs ->
+    run kink c st0 emt_reset segs = EOk r -> c_mode c = 1 ->
+    ForallOrdPairs (fun a b => r_end (st_first st0) a <= r_begin (st_first st0) b /\
+                               r_end (st_first st0) a <= r_frame b - st_first st0) (concat (snd r)).
+Proof. exact emt_variable_no_overlap_thm. Qed.
+Print Assumptions emt_variable_no_overlap.
+
+(* ... nor past the next ACCEPTED edge, recorded or not: the spec edgeMultiShouldRecord gives for the edge u with
+   accepted neighbours t <= u <= v starts at or after t + min(nsamp-npre, u-t) and ends at or before v. *)
+Theorem emt_variable_extent :
+  forall c t u v f p n,
+    cfg_ok c -> c_mode c = 1 -> t <= u <= v -> In (f, p, n) (sr c t u v) ->
+    f = u /\ t + Z.min (c_nsamp c - c_npre c) (u - t) <= f - p /\ f - p + n <= v /\
+    f - p + n <= u + (c_nsamp c - c_npre c).
+Proof. exact variable_extent_proof. Qed.
+Print Assumptions emt_variable_extent.
+
+(* The code before the fix (no look-back clamp on the refined position): an edge on the first searchable sample,
+   refined one sample earlier, makes triggerAtSpecificSamples slice rawData[-1:].  Same input on the repaired
+   model: one record at frame 6. *)
+Theorem emt_never_out_of_range_refuted_pre_fix :
+  run_old w_kink w_cfg w_st0 emt_reset [w_seg] = EPanic /\
+  exists r, run w_kink w_cfg w_st0 emt_reset [w_seg] = EOk r /\ map r_frame (concat (snd r)) = [6].
+Proof. exact refuted_pre_fix_proof. Qed.
+Print Assumptions emt_never_out_of_range_refuted_pre_fix.
